@@ -2,6 +2,9 @@
 from pyvc.spec import V, And, Or, Not, Implies, If, Abs, Min, Max, Sum, unwrap
 
 PARAMS = "src/optimizer/parameters.py"
+import os
+
+THOROUGH = os.environ.get("VERIF_TIER") == "thorough"
 HORIZONS = (48, 60, 72, 84, 96, 108, 120)
 
 
